@@ -1181,5 +1181,197 @@ theorem inv_gmut (P : Params V) (T : Tables) (hcov : Coverage T = true) (w : Wor
   · simp only [hm, Bool.not_false, if_true]
     simpa using hinv
 
+/-! ### requests and the cache API -/
+
+theorem viewOf_setCache (T : Tables) (w : World V) (o : Obj) (c : Cache V) (o' : Obj) (nm : String) :
+    viewOf T (setCache w o c) o' nm = viewOf T w o' nm := viewOf_congr T (sameStruct_setCache w o c) o' nm
+
+/-- the cache of one object is replaced by one that holds only old entries -/
+theorem inv_shrink (P : Params V) (T : Tables) (w : World V) (o : Obj) (c' : Cache V) (hinv : Inv P T w)
+    (hsub : ∀ nm sk v, c'.get? nm sk = some v → (cacheOf w o).get? nm sk = some v) : Inv P T (setCache w o c') := by
+  have hent : ∀ o' nm sk v, (cacheOf (setCache w o c') o').get? nm sk = some v →
+      (cacheOf w o').get? nm sk = some v := by
+    intro o' nm sk v hv
+    rw [cacheOf_setCache] at hv
+    by_cases e : o = o'
+    · subst e; simp only [if_true] at hv; exact hsub _ _ _ hv
+    · simpa [e] using hv
+  refine ⟨?_, ?_, ?_, ?_⟩
+  · intro o' nm sk v hv
+    unfold fresh; rw [viewOf_setCache]
+    exact hinv.coh _ _ _ _ (hent _ _ _ _ hv)
+  · intro o' ha nm sk
+    rw [attached_congr (sameStruct_setCache w o c')] at ha
+    cases hv : (cacheOf (setCache w o c') o').get? nm sk with
+    | none => rfl
+    | some v => have := hent _ _ _ _ hv; rw [hinv.loose o' ha nm sk] at this; cases this
+  · intro o' nm sk v hv
+    exact hinv.creg _ _ _ _ (hent _ _ _ _ hv)
+  · exact hinv.rdef
+
+/-- one `getRepresentation` on an attached object -/
+theorem inv_getOne (P : Params V) (T : Tables) (w : World V) (o : Obj) (name : String) (sk : SubKey)
+    (hinv : Inv P T w) (ha : attached w o = true)
+    (hreg : (facsOf T w.regs o.cls).any (fun p => p.1 = name) = true) (hkw : acceptsKw name = false → sk = none) :
+    Inv P T (getOne P T w o name sk).1 := by
+  unfold getOne Cache.lookupOrStore
+  cases hc : (cacheOf w o).get? name sk with
+  | some v0 =>
+    simp only
+    exact inv_shrink P T w o _ hinv (fun _ _ _ h => h)
+  | none =>
+    simp only
+    have hent : ∀ o' nm sk' v,
+        (cacheOf (setCache w o ((cacheOf w o).store name sk (fresh P T w o name sk))) o').get? nm sk' = some v →
+        (o = o' ∧ name = nm ∧ sk = sk' ∧ v = fresh P T w o name sk) ∨ (cacheOf w o').get? nm sk' = some v := by
+      intro o' nm sk' v hv
+      rw [cacheOf_setCache] at hv
+      by_cases e : o = o'
+      · subst e
+        simp only [if_true] at hv
+        rw [Cache.get?_store] at hv
+        by_cases e2 : name = nm ∧ sk = sk'
+        · rw [if_pos e2] at hv
+          exact Or.inl ⟨rfl, e2.1, e2.2, (Option.some.inj hv).symm⟩
+        · rw [if_neg e2] at hv; exact Or.inr hv
+      · simp only [e, if_false] at hv; exact Or.inr hv
+    refine ⟨?_, ?_, ?_, ?_⟩
+    · intro o' nm sk' v hv
+      unfold fresh; rw [viewOf_setCache]
+      rcases hent _ _ _ _ hv with ⟨e1, e2, e3, e4⟩ | h0
+      · subst e1; subst e2; subst e3; rw [e4]; rfl
+      · exact hinv.coh _ _ _ _ h0
+    · intro o' ha' nm sk'
+      rw [attached_congr (sameStruct_setCache w o _)] at ha'
+      cases hv : (cacheOf (setCache w o ((cacheOf w o).store name sk (fresh P T w o name sk))) o').get? nm sk' with
+      | none => rfl
+      | some v =>
+        rcases hent _ _ _ _ hv with ⟨e1, _, _, _⟩ | h0
+        · subst e1; rw [ha] at ha'; cases ha'
+        · rw [hinv.loose o' ha' nm sk'] at h0; cases h0
+    · intro o' nm sk' v hv
+      rcases hent _ _ _ _ hv with ⟨e1, e2, e3, _⟩ | h0
+      · subst e1; subst e2; subst e3; exact ⟨hreg, hkw⟩
+      · exact hinv.creg _ _ _ _ h0
+    · exact hinv.rdef
+
+theorem getOne_struct (P : Params V) (T : Tables) (w : World V) (o : Obj) (name : String) (sk : SubKey) :
+    SameStruct w (getOne P T w o name sk).1 := sameStruct_setCache _ _ _
+
+theorem makeSubKey_none_of_nil {kw : KwArgs} (h : kw.isEmpty = true) : makeSubKey kw = none := by
+  cases kw with
+  | nil => rfl
+  | cons a r => cases h
+
+theorem inv_get (P : Params V) (T : Tables) (w : World V) (o : Obj) (name : String) (kw : KwArgs)
+    (hinv : Inv P T w) : Inv P T (doGet P T w o name kw).1 := by
+  unfold doGet
+  by_cases h1 : exists? w o = true
+  · by_cases h2 : (facsOf T w.regs o.cls).any (fun p => p.1 = name) = true
+    · by_cases h3 : (!kw.isEmpty && !acceptsKw name) = true
+      · simpa [h1, h2, h3] using hinv
+      · by_cases h4 : attached w o = true
+        · have hkw : acceptsKw name = false → makeSubKey kw = none := by
+            intro ha
+            apply makeSubKey_none_of_nil
+            cases hk : kw.isEmpty with
+            | true => rfl
+            | false => exact absurd (by simp [hk, ha]) h3
+          simp only [h1, h2, h3, h4, Bool.not_true, Bool.false_eq_true, if_false]
+          cases hn : (if o = Obj.groups then nestedName name else none) with
+          | none =>
+            simp only
+            exact inv_getOne P T w o name _ hinv h4 h2 hkw
+          | some inner =>
+            simp only
+            by_cases h5 : (facsOf T w.regs o.cls).any (fun p => p.1 = inner) = true
+            · simp only [h5, Bool.not_true, Bool.false_eq_true, if_false]
+              cases hc : (cacheOf w o).get? name (makeSubKey kw) with
+              | some _ => simpa using hinv
+              | none =>
+                simp only
+                have i1 := inv_getOne P T w o inner none hinv h4 h5 (fun _ => rfl)
+                have s1 := getOne_struct P T w o inner none
+                exact inv_getOne P T _ o name _ i1 (by rw [attached_congr s1]; exact h4)
+                  (by rw [s1.regs]; exact h2) hkw
+            · simpa [h5] using hinv
+        · simpa [h1, h2, h3, h4] using hinv
+    · simpa [h1, h2] using hinv
+  · simpa [h1] using hinv
+
+theorem inv_register (P : Params V) (T : Tables) (w : World V) (cls name : String) (hinv : Inv P T w) :
+    Inv P T ({ w with regs := w.regs ++ [(cls, name, T.defaultDestr cls)] } : World V) := by
+  refine ⟨?_, ?_, ?_, ?_⟩
+  · intro o nm sk v hv
+    have := hinv.coh o nm sk v hv
+    rw [this]; unfold fresh
+    congr 1
+  · intro o ha nm sk
+    exact hinv.loose o (by rw [← ha]; rfl) nm sk
+  · intro o nm sk v hv
+    obtain ⟨h1, h2⟩ := hinv.creg o nm sk v hv
+    refine ⟨?_, h2⟩
+    rw [List.any_eq_true] at h1 ⊢
+    obtain ⟨p, hp, hpn⟩ := h1
+    refine ⟨p, ?_, hpn⟩
+    unfold facsOf at hp ⊢
+    rw [List.mem_append] at hp ⊢
+    rcases hp with hp | hp
+    · exact Or.inl hp
+    · refine Or.inr ?_
+      rw [List.filterMap_append, List.mem_append]
+      exact Or.inl hp
+  · intro r hr
+    simp only [List.mem_append, List.mem_cons, List.mem_nil_iff, or_false] at hr
+    rcases hr with hr | hr
+    · exact hinv.rdef r hr
+    · subst hr; rfl
+
+/-- a declared Groups mutator (`gset`) -/
+theorem inv_gset (P : Params V) (T : Tables) (hcov : Coverage T = true) (w : World V) (meth : String)
+    (hinv : Inv P T w) : Inv P T (doGset T w meth).1 := by
+  unfold doGset
+  by_cases hm : groupsMutators.contains meth = true
+  · simp only [hm, Bool.not_true, Bool.false_eq_true, if_false]
+    have hall : hitsAll T "Groups" (T.postsOf "Groups" meth) = true := by
+      have h1 : groupsMutators.all (fun m => hitsAll T "Groups" (T.postsOf "Groups" m)) = true :=
+        cov_mem hcov (by simp [covList])
+      exact List.all_eq_true.mp h1 meth (by simpa using hm)
+    generalize hw1 : (tick ({ w with groupsVer := w.clock } : World V) : World V) = w1
+    have hca : w1.caches = w.caches := by rw [← hw1]; rfl
+    have hrg : w1.regs = w.regs := by rw [← hw1]; rfl
+    have hss := sameStruct_applyDeliv T w1 ((T.postsOf "Groups" meth).map fun n => (Obj.groups, n))
+    have hatt : ∀ o, attached w1 o = attached w o := by intro o; rw [← hw1]; cases o <;> rfl
+    refine ⟨?_, ?_, ?_, ?_⟩
+    · intro o nm sk v hs
+      have h1 := (get?_applyDeliv T w1 _ o nm sk v hs).1
+      rw [cacheOf_eq_of_caches hca] at h1
+      cases o with
+      | groups =>
+        exfalso
+        obtain ⟨d, y, hd, hy, hhit⟩ := hits_of_hitsAll hinv.rdef hall (hinv.creg _ _ _ _ h1).1
+        exact not_survivor hs (by rw [hrg]; exact hd) (by rw [List.mem_map]; exact ⟨y, hy, rfl⟩) hhit
+      | contour cid =>
+        rw [hinv.coh _ _ _ _ h1]; unfold fresh; rw [viewOf_congr T hss]; congr 1; rw [← hw1]; rfl
+      | comp kid =>
+        rw [hinv.coh _ _ _ _ h1]; unfold fresh; rw [viewOf_congr T hss]; congr 1; rw [← hw1]; rfl
+      | glyph x =>
+        rw [hinv.coh _ _ _ _ h1]; unfold fresh; rw [viewOf_congr T hss]; congr 1; rw [← hw1]; rfl
+    · intro o ha nm sk
+      rw [attached_congr hss, hatt] at ha
+      cases hv : (cacheOf (applyDeliv T w1 _) o).get? nm sk with
+      | none => rfl
+      | some v =>
+        have h1 := (get?_applyDeliv T w1 _ o nm sk v hv).1
+        rw [cacheOf_eq_of_caches hca, hinv.loose o ha nm sk] at h1; cases h1
+    · intro o nm sk v hs
+      have h1 := (get?_applyDeliv T w1 _ o nm sk v hs).1
+      rw [cacheOf_eq_of_caches hca] at h1
+      rw [hss.regs, hrg]; exact hinv.creg _ _ _ _ h1
+    · intro r hr; rw [hss.regs, hrg] at hr; exact hinv.rdef r hr
+  · have hm' : groupsMutators.contains meth = false := by simpa using hm
+    simp only [hm', Bool.not_false, if_true]
+    exact hinv
+
 end Repr
 end DefconModel
